@@ -8,7 +8,7 @@ from pipeline import field, parse_loc
 THEOREMS = ["Rva.addEdge_symm", "Rva.cutOut_symm", "Rva.cutIn_symm", "Rva.directions_symm", "Rva.deadCode_symm", "Rva.ecallTerm_symm", "Rva.symm_of_no_edges",
             "Rva.rewire_symm", "Rva.markLoop_symm", "Rva.markup_symm", "Rva.directions_rnn", "Rva.available_edges",
             "Rva.liveness_edges", "Rva.buildCfg_noEdges", "Rva.pipeline_symm",
-            "Rva.directions_edges", "Rva.markLoop_kinds", "Rva.pipeline_edge_kinds"]
+            "Rva.directions_edges", "Rva.markLoop_kinds", "Rva.pipeline_edge_kinds", "Rva.unreachable_only_without_edge"]
 
 
 def oracle(src, blk, rng):
